@@ -48,6 +48,17 @@ class Binder:
 
         need_locals(self.fn, "keywords_consumed", "definitely_provided", "position", "positionals", "items")
         self.arms = self._arms()
+        # optional flag: "*args can no longer fill a parameter" - set in the
+        # positional-or-keyword arm on a path where the parameter is passed by keyword
+        self.exhausted_flag: Optional[str] = None
+        for n in ast.walk(ast.Module(body=list(self.arms.get("POSITIONAL_OR_KEYWORD", [])), type_ignores=[])):
+            if isinstance(n, ast.Assign) and len(n.targets) == 1 and isinstance(n.targets[0], ast.Name) and isinstance(n.value, ast.Constant) and n.value.value is True:
+                nm = n.targets[0].id
+                if nm.endswith("_consumed"):
+                    continue
+                p = parent(n)
+                if isinstance(p, ast.If) and self.atom_of(p.test) == ("HAS_KW", True):
+                    self.exhausted_flag = nm
 
     def _is_A(self, e: ast.AST, attr: str) -> bool:
         return isinstance(e, ast.Attribute) and e.attr == attr and isinstance(e.value, ast.Name) and e.value.id == self.A
@@ -101,6 +112,8 @@ class Binder:
                     return "POK_IDX", pol
         if self._is_A(test, "ellipsis"):
             return "ELLIPSIS", True
+        if isinstance(test, ast.Name) and getattr(self, "exhausted_flag", None) and test.id == self.exhausted_flag:
+            return "STAR_EXHAUSTED", True
         if isinstance(test, ast.Name) and test.id == "definitely_provided":
             return "DEF_PROVIDED", True
         if isinstance(test, ast.Name) and test.id == "positionals":
@@ -123,6 +136,8 @@ class Binder:
                     return None
                 if t.id.endswith("_consumed") and isinstance(st.value, ast.Constant) and st.value.value is True:
                     return ["FLAG:" + t.id]
+                if t.id == getattr(self, "exhausted_flag", None) and isinstance(st.value, ast.Constant) and st.value.value is True:
+                    return ["FLAG:star_exhausted"]
             return None
         if isinstance(st, ast.AugAssign) and isinstance(st.target, ast.Name) and st.target.id == self.IDX:
             return ["INC_POS"]
